@@ -27,12 +27,14 @@ import (
 )
 
 // The excluded class, frozen. goom's copy of the decoder stubs out the system-instruction
-// name table (sys_op_4 always answers "plain SYS", the DC/TLBI operand decoders return nil),
-// so inside the SYS encoding space (SYS: 1101 0101 0000 1 op1 CRn CRm op2 Rt, L=0) it reports
-// the generic SYS where the reference reports the AT/DC/IC/TLBI alias or rejects the word.
-// A complete 2^32 run with this mask shows no disagreement outside it, and none at all in
-// the SYSL half (L=1, 0xD5280000) — so the tighter of the two candidate masks is the right one.
-// It is a constant of the harness: a change in goom cannot widen it.
+// alias table (sys_op_4 always answers "plain SYS"; the DC and TLBI operand decoders are two
+// "TODO: system instruction" stubs that return nil), so inside the SYS encoding space
+// (1101 0101 0000 1 op1 CRn CRm op2 Rt, L=0) it leaves words undecoded that the reference decodes.
+// Determined from a complete 2^32 run with the tighter of the two candidate masks
+// {0xFFF80000 (SYS), 0xFFD80000 (SYS+SYSL)}: 0 disagreements outside w&0xFFF80000==0xD5080000
+// (so none in the SYSL half 0xD5280000 either), 2927 inside it — 896 words the reference
+// decodes as DC and 2031 as TLBI, goom "unknown instruction" on all of them, i.e. exactly the
+// two stubs. It is a constant of the harness: a change in goom cannot widen it.
 const (
 	sysMask uint32 = 0xFFF80000
 	sysVal  uint32 = 0xD5080000
